@@ -41,13 +41,13 @@ macro "cLoadTail_block" : tactic => `(tactic| (
   inv_pc i1))
 
 theorem inv_cLoadTail {s s' : Sys} {ts : Nat} (inv : Inv s) (h : step pinned s (.cLoadTail ts) = some s') :
-    s'.fail = some .useAfterFree ∨ Inv s' := by
+    s' = { s with fail := some .useAfterFree } ∨ Inv s' := by
   have nf := inv.nofail
   simp only [step, nf, Option.isSome_none, Bool.false_eq_true, if_false, pinned] at h
   split at h
   · rename_i hpc
     split at h
-    · left; simp [failWith] at h; rw [← h]
+    · left; simp only [failWith, Option.some.injEq] at h; exact h.symm
     split at h
     · simp at h
     rename_i m hr
@@ -66,7 +66,7 @@ theorem inv_cLoadTail {s s' : Sys} {ts : Nat} (inv : Inv s) (h : step pinned s (
       cLoadTail_block
   · rename_i hpc
     split at h
-    · left; simp [failWith] at h; rw [← h]
+    · left; simp only [failWith, Option.some.injEq] at h; exact h.symm
     split at h
     · simp at h
     rename_i m hr
@@ -86,14 +86,14 @@ theorem inv_cLoadTail {s s' : Sys} {ts : Nat} (inv : Inv s) (h : step pinned s (
   · simp at h
 
 theorem inv_cLoadOpen {s s' : Sys} {ts : Nat} (inv : Inv s) (h : step pinned s (.cLoadOpen ts) = some s') :
-    s'.fail = some .useAfterFree ∨ Inv s' := by
+    s' = { s with fail := some .useAfterFree } ∨ Inv s' := by
   have nf := inv.nofail
   simp only [step, nf, Option.isSome_none, Bool.false_eq_true, if_false, pinned] at h
   split at h
   case h_2 => simp at h
   rename_i b hpc
   split at h
-  · left; simp [failWith] at h; rw [← h]
+  · left; simp only [failWith, Option.some.injEq] at h; exact h.symm
   split at h
   · simp at h
   rename_i m hr
@@ -114,14 +114,14 @@ theorem inv_cLoadOpen {s s' : Sys} {ts : Nat} (inv : Inv s) (h : step pinned s (
       inv_pc i1
 
 theorem inv_cLoadTail2 {s s' : Sys} {ts : Nat} (inv : Inv s) (h : step pinned s (.cLoadTail2 ts) = some s') :
-    s'.fail = some .useAfterFree ∨ Inv s' := by
+    s' = { s with fail := some .useAfterFree } ∨ Inv s' := by
   have nf := inv.nofail
   simp only [step, nf, Option.isSome_none, Bool.false_eq_true, if_false, pinned] at h
   split at h
   case h_2 => simp at h
   rename_i b hpc
   split at h
-  · left; simp [failWith] at h; rw [← h]
+  · left; simp only [failWith, Option.some.injEq] at h; exact h.symm
   split at h
   · simp at h
   rename_i m hr
@@ -146,7 +146,7 @@ theorem inv_cLoadTail2 {s s' : Sys} {ts : Nat} (inv : Inv s) (h : step pinned s 
       cLoadTail_block
 
 theorem inv_cPop {s s' : Sys} (inv : Inv s) (h : step pinned s .cPop = some s') :
-    s'.fail = some .useAfterFree ∨ Inv s' := by
+    s' = { s with fail := some .useAfterFree } ∨ Inv s' := by
   have nf := inv.nofail
   simp only [step, nf, Option.isSome_none, Bool.false_eq_true, if_false] at h
   split at h
@@ -156,7 +156,7 @@ theorem inv_cPop {s s' : Sys} (inv : Inv s) (h : step pinned s .cPop = some s') 
   · simp at h
   rename_i hempty
   split at h
-  · left; simp [failWith] at h; rw [← h]
+  · left; simp only [failWith, Option.some.injEq] at h; exact h.symm
   right
   have hrun : s.c.pc.running = true := by rw [hpc]; rfl
   have hnq : s.c.pc.quiet = false := by rw [hpc]; rfl
@@ -272,7 +272,7 @@ theorem inv_cPop {s s' : Sys} (inv : Inv s) (h : step pinned s .cPop = some s') 
       simp [hhead, *]
 
 theorem inv_cRelease {s s' : Sys} (inv : Inv s) (h : step pinned s .cRelease = some s') :
-    s'.fail = some .useAfterFree ∨ Inv s' := by
+    s' = { s with fail := some .useAfterFree } ∨ Inv s' := by
   have nf := inv.nofail
   simp only [step, nf, Option.isSome_none, Bool.false_eq_true, if_false, pinned] at h
   split at h
@@ -300,7 +300,7 @@ theorem inv_cRelease {s s' : Sys} (inv : Inv s) (h : step pinned s .cRelease = s
     case cS1 => intro _; exact hg
     inv_pc inv
   split at h
-  · left; simp [failWith] at h; rw [← h]
+  · left; simp only [failWith, Option.some.injEq] at h; exact h.symm
   right
   simp only [store, Option.some.injEq, Ord.isRel, if_true] at h
   subst h
